@@ -8,6 +8,7 @@ import SlipVerif.Driver.Util
      E<p>:<n>  (export n p)                    Z<p>:<n>  (unexport n p)
      V<n>:<tag> (defvar n tag)   W<n> (defvar n)   S<n>:<tag> (setq n tag)   F<n>:<tag> (defun n … tag)
      M<n> (makunbound n)         K<n> (fmakunbound n)
+     G<n>:<tag>:<0|1>  Package.Define of a Go function n in the current package (1 = exported)
      O   observe: emits one block
    reply: ok <block>|<block>|…   a block lists, for every current package c < npk:
      for n < nnm:  var(c,n) fboundp(c,n) call(c,n)
@@ -37,6 +38,7 @@ def parseOp (tok : String) : Option (Option Op) :=   -- some none = observe
   | "F", [n, v] => do some (some (.defun (← n.toNat?) (← v.toNat?)))
   | "M", [n] => do some (some (.makunbound (← n.toNat?)))
   | "K", [n] => do some (some (.fmakunbound (← n.toNat?)))
+  | "G", [n, v, e] => do some (some (.gdefine (← n.toNat?) (← v.toNat?) ((← e.toNat?) != 0)))
   | _, _ => none
 
 def showVal : Option Nat → String
